@@ -58,6 +58,7 @@ type Config struct {
 	SlowLocal      time.Duration  // system.local is answered this much later than it could be (system.peers is not)
 	HostAdvertised map[int]string // the rpc_address a host reports for itself in system.local (default: the address it listens on)
 	HostRelease    map[int]string // release_version per host index (default: ReleaseVersion)
+	HostCQL        map[int]string // cql_version per host index (default: 3.4.5)
 	HostMaxVersion map[int]int32  // hosts that are nodes of an older release from the start (Host.MaxVersion)
 	ContactHosts   []int          // host indexes handed to the proxy as contact points, in order (default: host 1)
 	NeverCompress  bool           // never compress responses even when compression was negotiated
@@ -251,6 +252,13 @@ func (c *Cluster) ContactPoints() []string {
 		out = append(out, c.HostIP(i))
 	}
 	return out
+}
+
+func (c *Cluster) cqlOf(host int) string {
+	if v, ok := c.cfg.HostCQL[host]; ok {
+		return v
+	}
+	return "3.4.5"
 }
 
 func (c *Cluster) releaseOf(host int) string {
@@ -1198,7 +1206,7 @@ func (c *Cluster) systemRows(x *Conn, table string) message.Message {
 		}
 		row := message.Row{[]byte("local"), net.ParseIP(self).To4(), []byte(c.dcOf(x.Host.Idx)), []byte("rack1"),
 			encSet(fmt.Sprintf("%d", x.Host.Idx*1000)), []byte(c.releaseOf(x.Host.Idx)), []byte("org.apache.cassandra.dht.Murmur3Partitioner"),
-			[]byte("fakecass"), []byte("3.4.5"), schema[:], u[:]}
+			[]byte("fakecass"), []byte(c.cqlOf(x.Host.Idx)), schema[:], u[:]}
 		if dse {
 			cols = append(cols, &message.ColumnMetadata{Keyspace: "system", Table: "local", Name: "dse_version", Type: datatype.Varchar})
 			row = append(row, []byte(c.cfg.DSEVersion))
